@@ -29,11 +29,12 @@ class Kernel:
 
 
 class KGen:
-    def __init__(self, rng, real_only=False, allow_unsafe=True, passive_temps=True):
+    def __init__(self, rng, real_only=False, allow_unsafe=True, passive_temps=True, cond_on_reals=True):
         self.r = rng
         self.real_only = real_only
         self.allow_unsafe = allow_unsafe
         self.passive_temps = passive_temps and not real_only
+        self.cond_on_reals = cond_on_reals
         self.features = set()
 
     # -- passive expressions ------------------------------------------------
@@ -177,11 +178,14 @@ class KGen:
         c = []
         if not self.real_only:
             c += ["lg", ".not. lg", f"n1 > {r.randint(0, 6)}", f"n2 <= {r.randint(2, 8)}"]
-        c += [f"p > {r.randint(-2, 2)}.0", f"q < {r.randint(-2, 2)}.0"]
+        if self.cond_on_reals:
+            c += [f"p > {r.randint(-2, 2)}.0", f"q < {r.randint(-2, 2)}.0"]
         if live:
             v = r.choice(live)
-            c += [f"{v} < {r.randint(1, 6)}", f"cf({v}) > 0.0", f"mod({v}, 2) == 0"]
-        return r.choice(c)
+            c += [f"{v} < {r.randint(1, 6)}", f"mod({v}, 2) == 0"]
+            if self.cond_on_reals:
+                c.append(f"cf({v}) > 0.0")
+        return r.choice(c) if c else "2 > 1"
 
     def block(self, live, n, ind, depth):
         r = self.r
